@@ -23,6 +23,7 @@ OP_ASSIGN = {'ops::AddAssign::add_assign': 'std::ops::Add::add', 'ops::SubAssign
 import re as _re
 _PROMOTED_RX = _re.compile(r'promoted\[(\d+)\]$')
 PROMOTED = {}          # def path of a promoted body -> Body (filled by core.Facts)
+BODIES = {}            # def path -> Body of every workspace body (filled by core.Facts); used for opt-in inlining
 _PROMOTED_CACHE = {}
 
 
@@ -50,7 +51,7 @@ class TooManyPaths(Exception):
 
 
 class Event:
-    __slots__ = ('kind', 'site', 'name', 'fn', 'args', 'dest', 'lv', 'term', 'line', 'bb', 'value', 'call', 'pre')
+    __slots__ = ('kind', 'site', 'name', 'fn', 'args', 'dest', 'lv', 'term', 'line', 'bb', 'value', 'call', 'pre', 'inlined', 'frame')
 
     def __init__(self, kind, **kw):
         for s in self.__slots__:
@@ -73,6 +74,8 @@ def show_lv(lv):
     root, path = lv
     if root[0] == 'local':
         s = '_%d' % root[1]
+    elif root[0] == 'flocal':
+        s = '_f%d_%d' % (root[1], root[2])
     elif root[0] == 'ptr':
         s = '*' + show(root[1])
     else:
@@ -131,6 +134,10 @@ def show(t, depth=0):
         return '[%s]' % ', '.join(show(a, d) for a in t[2])
     if k == 'repeat':
         return '[%s; _]' % show(t[1], d)
+    if k == 'tryopt':
+        return 'try(%s)' % show(t[1], d)
+    if k == 'residual_none':
+        return 'None?'
     return str(t)
 
 
@@ -143,9 +150,17 @@ class State:
         self.excluded = {}  # cond term -> values ruled out by an earlier `otherwise` decision
         self.blocks = []
         self.visits = collections.Counter()
+        self.root_body = body
+        self.fid = 0          # current frame id (0 = the analysed body; > 0 = an inlined callee)
+        self.next_fid = 1
+        self.frames = []      # stack of (caller body, caller fid, dest (root, path) | None, return target bb)
 
     def clone(self):
         s = State(self.body)
+        s.root_body = self.root_body
+        s.fid = self.fid
+        s.next_fid = self.next_fid
+        s.frames = list(self.frames)
         s.mem = dict(self.mem)
         s.events = list(self.events)
         s.decided = dict(self.decided)
@@ -158,7 +173,9 @@ class State:
     def default(self, root, path):
         if root[0] == 'local':
             l = root[1]
-            t = ('arg', l) if 1 <= l <= self.body.arg_count else ('undef', l)
+            t = ('arg', l) if 1 <= l <= self.root_body.arg_count else ('undef', l)
+        elif root[0] == 'flocal':
+            t = ('undef', root[2])
         elif root[0] == 'ptr':
             t = ('deref', root[1])
         else:
@@ -210,6 +227,12 @@ def project(t, p):
     """apply a path element (field name or ('idx', term)) to a term"""
     if isinstance(p, tuple) and p[0] == 'idx':
         return ('index', t, p[1])
+    if t[0] == 'tryopt':
+        # `x?` on an Option: the Continue payload is the Some payload, the Break payload is the `None` residual
+        if p == 'Continue.0':
+            return project(t[1], 'Some.0')
+        if p == 'Break.0':
+            return ('residual_none',)
     if t[0] == 'tuple':
         try:
             return t[1][int(p)]
@@ -275,18 +298,31 @@ class Path:
 
 
 class SymEx:
-    def __init__(self, body, max_visits=2, max_paths=4000, follow_diverge=False, havoc_loops=False):
+    def __init__(self, body, max_visits=2, max_paths=4000, follow_diverge=False, havoc_loops=False, inline=None, max_inline_depth=3):
         self.body = body
         self.havoc_loops = havoc_loops
         self.loops = find_loops(body) if havoc_loops else {}
+        self._loops_of = {body.defp: self.loops}
+        self.inline = inline                  # callable(callee Body, Call) -> bool: execute the callee's body in place
+        self.max_inline_depth = max_inline_depth
         self.max_visits = max_visits
         self.max_paths = max_paths
         self.follow_diverge = follow_diverge
         self.paths = []
 
     # ---- places
+    def loc(self, st, l):
+        return ('local', l) if st.fid == 0 else ('flocal', st.fid, l)
+
+    def loops_for(self, body):
+        if not self.havoc_loops:
+            return {}
+        if body.defp not in self._loops_of:
+            self._loops_of[body.defp] = find_loops(body)
+        return self._loops_of[body.defp]
+
     def resolve_lv(self, st, place):
-        root = ('local', place['l'])
+        root = self.loc(st, place['l'])
         path = ()
         variant = None
         for e in place['p']:
@@ -305,7 +341,7 @@ class SymEx:
                 variant = None
                 path = path + (nm,)
             elif isinstance(e, dict) and 'index' in e:
-                path = path + (('idx', st.read(('local', e['index']), ())),)
+                path = path + (('idx', st.read(self.loc(st, e['index']), ())),)
             elif isinstance(e, dict) and 'cindex' in e:
                 path = path + (('idx', ('const', e['cindex'])),)
             elif isinstance(e, dict) and 'downcast' in e:
@@ -332,7 +368,7 @@ class SymEx:
             r = c.get('repr', c['ty'])
             m = _PROMOTED_RX.search(r) if isinstance(r, str) else None
             if m:
-                v = promoted_value(self.body, int(m.group(1)))
+                v = promoted_value(st.body, int(m.group(1)))
                 if v is not None:
                     return v
             return ('const', r)
@@ -384,33 +420,37 @@ class SymEx:
         return self.paths
 
     def _go(self, st, bb):
-        body = self.body
         while True:
+            body = st.body
+            loops = self.loops if body is self.body else self.loops_for(body)
+            vk = bb if st.fid == 0 else (st.fid, bb)
             if len(self.paths) > self.max_paths:
                 raise TooManyPaths(body.defp)
-            if self.havoc_loops and bb in self.loops:
-                if st.visits[bb] >= 1:
+            if self.havoc_loops and bb in loops:
+                if st.visits[vk] >= 1:
                     # back edge: the generic iteration ends here (its events still count)
                     self.paths.append(Path(st, 'backedge', None))
                     return
-                info = self.loops[bb]
+                info = loops[bb]
                 for l in info['locals']:
-                    for k in [k for k in st.mem if k[0] == ('local', l)]:
+                    lr = self.loc(st, l)
+                    for k in [k for k in st.mem if k[0] == lr]:
                         del st.mem[k]
-                    st.mem[(('local', l), ())] = ('loopvar', bb, l)
+                    st.mem[(lr, ())] = ('loopvar', bb, l)
                 if info['heap']:
-                    for k in [k for k in st.mem if k[0][0] != 'local']:
+                    for k in [k for k in st.mem if k[0][0] not in ('local', 'flocal')]:
                         st.mem[k] = ('loopvar', bb, show_lv(k))
-            st.visits[bb] += 1
-            st.blocks.append(bb)
+            st.visits[vk] += 1
+            if st.fid == 0:
+                st.blocks.append(bb)
             blk = body.blocks[bb]
             for s in blk['stmts']:
                 if s['k'] == 'assign':
                     val = self.rvalue(st, s['rv'])
                     root, path = self.resolve_lv(st, s['lhs'])
                     st.write(root, path, val)
-                    if root[0] != 'local':
-                        st.events.append(Event('write', lv=(root, path), term=val, line=s.get('cline') or s['line'], bb=bb))
+                    if root[0] not in ('local', 'flocal'):
+                        st.events.append(Event('write', lv=(root, path), term=val, line=s.get('cline') or s['line'], bb=bb, frame=st.fid))
                 elif s['k'] == 'setdiscr':
                     root, path = self.resolve_lv(st, s['lhs'])
                     st.write(root, path + ('<discr>',), ('const', s['variant']))
@@ -419,6 +459,24 @@ class SymEx:
             if k == 'goto':
                 nxt = [t['target']]
             elif k == 'return':
+                if st.frames:
+                    rv = st.read(self.loc(st, 0), ())
+                    cbody, cfid, dest, target = st.frames.pop()
+                    st.body, st.fid = cbody, cfid
+                    if dest is not None:
+                        st.write(dest[0], dest[1], rv)
+                    if target is None:
+                        if self.follow_diverge:
+                            self.paths.append(Path(st, 'diverge', None))
+                        return
+                    nxt = [target]
+                    b2 = nxt[0]
+                    vk2 = b2 if st.fid == 0 else (st.fid, b2)
+                    if st.visits[vk2] >= self.max_visits:
+                        self.paths.append(Path(st, 'cut', None))
+                        return
+                    bb = b2
+                    continue
                 self.paths.append(Path(st, 'return', st.read(('local', 0), ())))
                 return
             elif k in ('unreachable', 'resume', 'abort', 'other', 'tailcall'):
@@ -433,12 +491,30 @@ class SymEx:
                 nxt = [t['target']]
             elif k == 'call':
                 call = Call(body, bb, t)
-                site = '%d.%d' % (bb, st.visits[bb])
+                site = '%d.%d' % (bb, st.visits[vk]) if st.fid == 0 else 'i%d:%d.%d' % (st.fid, bb, st.visits[vk])
                 args = tuple(self.operand(st, a) for a in t['args'])
                 name = call.name or show(self.operand(st, t['func']))
                 pre = tuple(st.read(a[1][0], a[1][1]) if a[0] == 'mref' else a for a in args)
-                ev = Event('call', site=site, name=name, fn=call.fn, args=args, line=call.line, bb=bb, call=call, pre=pre)
+                ev = Event('call', site=site, name=name, fn=call.fn, args=args, line=call.line, bb=bb, call=call, pre=pre, frame=st.fid)
                 st.events.append(ev)
+                # opt-in inlining: run the callee's body in place (private helpers extracted by a refactoring)
+                if self.inline is not None and len(st.frames) < self.max_inline_depth:
+                    cb = BODIES.get(call.callee or '') or BODIES.get(name)
+                    if cb is not None and cb is not body and cb.arg_count == len(args) and all(fr[0] is not cb for fr in st.frames) \
+                            and cb is not self.body and self.inline(cb, call):
+                        ev.inlined = True
+                        dest = None
+                        if t.get('dest') is not None:
+                            dest = self.resolve_lv(st, t['dest'])
+                            ev.dest = dest
+                        st.frames.append((body, st.fid, dest, t.get('target')))
+                        st.fid = st.next_fid
+                        st.next_fid += 1
+                        st.body = cb
+                        for i_, a_ in enumerate(args):
+                            st.write(self.loc(st, i_ + 1), (), a_)
+                        bb = 0
+                        continue
                 # x op= y on a `&mut` place: model as x := op(x, y) (the trait's contract)
                 modelled = False
                 gen = (call.fn or {}).get('def', '')
@@ -448,8 +524,8 @@ class SymEx:
                         old = st.read(lv[0], lv[1])
                         newv = ('call', OP_ASSIGN[opn], (old, args[1]), site)
                         st.write(lv[0], lv[1], newv)
-                        if lv[0][0] != 'local':
-                            st.events.append(Event('write', lv=lv, term=newv, line=call.line, bb=bb))
+                        if lv[0][0] not in ('local', 'flocal'):
+                            st.events.append(Event('write', lv=lv, term=newv, line=call.line, bb=bb, frame=st.fid))
                         modelled = True
                 # callee may write through every &mut it receives
                 for a, aop in zip(args, t['args']) if not modelled else []:
@@ -460,6 +536,10 @@ class SymEx:
                         if p is not None and not p['p'] and body.local_ty(p['l']).startswith('&mut '):
                             st.havoc(('ptr', a), (), site)
                 val = ('call', name, args, site)
+                if gen.endswith('ops::Try::branch') and len(args) == 1 and (t.get('dest_ty') or '').startswith('std::ops::ControlFlow<std::option::Option<'):
+                    val = ('tryopt', args[0])
+                elif gen.endswith('FromResidual::from_residual') and len(args) == 1 and args[0] == ('residual_none',):
+                    val = ('adt', 'std::option::Option', 'None', (), ())
                 if t.get('dest') is not None:
                     root, path = self.resolve_lv(st, t['dest'])
                     st.write(root, path, val)
@@ -471,7 +551,12 @@ class SymEx:
                 nxt = [t['target']]
             elif k == 'switch':
                 c = self.operand(st, t['discr'])
+                c = _known_cmp(st, c)
                 targets = t['targets']
+                if c[0] == 'discr' and c[1][0] == 'tryopt':
+                    # Continue (0) <=> Some (1); Break (1) <=> None (0)
+                    c = ('discr', c[1][1])
+                    targets = [({0: 1, 1: 0}.get(v, v), b2) for v, b2 in targets]
                 choice = None
                 if c[0] == 'const' and isinstance(c[1], int):
                     choice = t['otherwise']
@@ -500,7 +585,7 @@ class SymEx:
                         opts = opts + [('else', t['otherwise'])]
                     allowed = []
                     for v, b2 in opts:
-                        if st.visits[b2] < self.max_visits:
+                        if st.visits[b2 if st.fid == 0 else (st.fid, b2)] < self.max_visits:
                             allowed.append((v, b2))
                     for i, (v, b2) in enumerate(allowed):
                         s2 = st.clone() if i < len(allowed) - 1 else st
@@ -515,10 +600,25 @@ class SymEx:
             else:
                 return
             b2 = nxt[0]
-            if st.visits[b2] >= self.max_visits:
+            if st.visits[b2 if st.fid == 0 else (st.fid, b2)] >= self.max_visits:
                 self.paths.append(Path(st, 'cut', None))
                 return
             bb = b2
+
+
+def _known_cmp(st, c):
+    """Eq(X, k) / Ne(X, k) where the path has already decided the switch on X: fold to a constant"""
+    if c[0] == 'bin' and c[1] in ('Eq', 'Ne') and len(c) == 4:
+        for x, kk in ((c[2], c[3]), (c[3], c[2])):
+            if kk[0] == 'const' and isinstance(kk[1], int) and not isinstance(kk[1], bool):
+                if x in st.decided:
+                    v = st.decided[x]
+                    if v != 'else':
+                        r = (v == kk[1])
+                        return ('const', int(r if c[1] == 'Eq' else not r))
+                    if kk[1] in st.excluded.get(x, ()):
+                        return ('const', int(c[1] == 'Ne'))
+    return c
 
 
 def find_loops(body):
@@ -593,6 +693,19 @@ def fold_bin(op, a, b):
         except Exception:
             pass
     return ('bin', op, a, b)
+
+
+def private_helper(exclude=(), also=()):
+    """inline predicate: a non-public workspace function (a helper a refactoring may have extracted) whose name the rule
+    does not itself match on (`exclude`), or any function named in `also`"""
+    def pred(cb, call):
+        if cb.kind not in ('Fn', 'AssocFn'):
+            return False
+        nm = cb.name or cb.defp.split('::')[-1]
+        if nm in also:
+            return True
+        return cb.d.get('vis', 'pub') != 'pub' and nm not in exclude
+    return pred
 
 
 def paths_of(body, **kw):
